@@ -2,9 +2,15 @@ pub mod adapter;
 pub mod dd;
 pub mod fw;
 pub mod gen;
+pub mod hist;
 pub mod refs;
 pub mod props {
     pub mod c01;
     pub mod c02;
     pub mod c03;
+    pub mod c04;
+    pub mod c05;
+    #[cfg(feature = "serde")]
+    pub mod c06;
+    pub mod c12;
 }
